@@ -43,6 +43,11 @@ type Op struct {
 	// time: the first is held half-way while the second runs to completion)
 	Batch2 []Snap `json:"batch2,omitempty"`
 	Bound int    `json:"bound,omitempty"` // day offset of the GetSince bound
+	// Sec, Zone: the bound is Sec seconds into that UTC day, presented in a zone Zone quarter
+	// hours east of UTC (the backtest passes a time.Now()-derived bound; "on or after" is a
+	// comparison of instants)
+	Sec  int `json:"sec,omitempty"`
+	Zone int `json:"zone,omitempty"`
 }
 
 // Case is an operation history.
@@ -117,6 +122,15 @@ func genCase(t *rapid.T) Case {
 			if op.Bound < -2 {
 				op.Bound = -2
 			}
+			if rapid.IntRange(0, 2).Draw(t, "intraday") == 0 {
+				op.Sec = rapid.SampledFrom([]int{1, 60, 3600, 43199, 43200, 45000, 86399}).Draw(t, "sec")
+				if rapid.Bool().Draw(t, "anysec") {
+					op.Sec = rapid.IntRange(1, 86399).Draw(t, "sec2")
+				}
+			}
+			if rapid.IntRange(0, 3).Draw(t, "zoned") == 0 {
+				op.Zone = rapid.IntRange(-48, 56).Draw(t, "zone")
+			}
 		}
 		c.Ops = append(c.Ops, op)
 	}
@@ -171,7 +185,7 @@ func prop(mk repoMaker) engine.AnyProp {
 			appendsTo := map[string]int{}
 			hitEqual := false
 			// observe checks every read operation of every name against the model.
-			observe := func(step int, bound int) bool {
+			observe := func(step int, bound, sec, zone int) bool {
 				for _, nm := range names {
 					want, isKnown := model[nm], known[nm]
 					ch, err := repo.Get(nm)
@@ -194,10 +208,16 @@ func prop(mk repoMaker) engine.AnyProp {
 							return false
 						}
 					}
-					bd := day0.AddDate(0, 0, bound)
+					bd := day0.AddDate(0, 0, bound).Add(time.Duration(sec) * time.Second)
+					if zone != 0 {
+						bd = bd.In(time.FixedZone("verif", zone*900))
+					}
+					if sec != 0 || zone != 0 {
+						o.Class("since_bound:not_a_whole_utc_day")
+					}
 					var wantSince []Snap
 					for _, s := range want {
-						if s.Day >= bound {
+						if s.Day > bound || (s.Day == bound && sec == 0) {
 							wantSince = append(wantSince, s)
 						}
 						if s.Day == bound && appendsTo[nm] >= 2 {
@@ -216,10 +236,10 @@ func prop(mk repoMaker) engine.AnyProp {
 						o.Failf("%s step %d: GetSince(%q) of a never-appended asset returned no error", mk.name, step, nm)
 						return false
 					case isKnown && err != nil && len(want) > 0:
-						o.Failf("%s step %d: GetSince(%q, %s) failed: %v", mk.name, step, nm, bd.Format("2006-01-02"), err)
+						o.Failf("%s step %d: GetSince(%q, %s) failed: %v", mk.name, step, nm, bd.Format(time.RFC3339), err)
 						return false
 					case isKnown && err == nil:
-						if msg := compare(fmt.Sprintf("%s step %d: GetSince(%q, %s)", mk.name, step, nm, bd.Format("2006-01-02")), got, wantSince); msg != "" {
+						if msg := compare(fmt.Sprintf("%s step %d: GetSince(%q, %s)", mk.name, step, nm, bd.Format(time.RFC3339)), got, wantSince); msg != "" {
 							o.Failf("%s (exactly those dated on or after the bound)", msg)
 							return false
 						}
@@ -263,7 +283,7 @@ func prop(mk repoMaker) engine.AnyProp {
 				}
 				return true
 			}
-			lastBound := 0
+			lastBound, lastSec, lastZone := 0, 0, 0
 			for i, op := range c.Ops {
 				nm := names[op.Name]
 				switch op.K {
@@ -371,7 +391,7 @@ func prop(mk repoMaker) engine.AnyProp {
 					appendsTo[nm] += 2
 					o.Add("overlapping_append_pairs", 1)
 				case "since":
-					lastBound = op.Bound
+					lastBound, lastSec, lastZone = op.Bound, op.Sec, op.Zone
 				case "touch":
 					// only for an asset that holds nothing yet: an empty file appears out of band
 					if mk.touch != nil && len(model[nm]) == 0 {
@@ -384,7 +404,7 @@ func prop(mk repoMaker) engine.AnyProp {
 					}
 				}
 				// an Append that has returned is visible to every later read: observe after every step
-				if !observe(i, lastBound) {
+				if !observe(i, lastBound, lastSec, lastZone) {
 					return o
 				}
 			}
